@@ -63,3 +63,31 @@ func SignPayload(payload []byte, signer Signer) (string, error) {
 func SignModel(model interface{}, signer Signer) (string, error) {
 	return signutil.SignModel(model, signer)
 }
+
+// VerifyJWSDetached calls internal/jws.VerifyJWS with the detached payload option.
+func VerifyJWSDetached(compact string, jwk *jws.JWK, payload []byte) (*ParsedJWS, error) {
+	p, err := internaljws.VerifyJWS(compact, jwk, internaljws.WithJWSDetachedPayload(payload))
+
+	return export(p), err
+}
+
+// ParseJWSDetached calls internal/jws.ParseJWS with the detached payload option.
+func ParseJWSDetached(compact string, payload []byte) (*ParsedJWS, error) {
+	p, err := internaljws.ParseJWS(compact, internaljws.WithJWSDetachedPayload(payload))
+
+	return export(p), err
+}
+
+// NewJWSCompact calls internal/jws.NewJWS, then the given function (if any), then SerializeCompact.
+func NewJWSCompact(protected jws.Headers, payload []byte, signer Signer, between func(), detached bool) (string, error) {
+	s, err := internaljws.NewJWS(protected, nil, payload, signer)
+	if err != nil {
+		return "", err
+	}
+
+	if between != nil {
+		between()
+	}
+
+	return s.SerializeCompact(detached)
+}
